@@ -3145,4 +3145,284 @@ example : ∀ t ∈ [(⟨"text", some "short_label"⟩ : Order.DT), ⟨"short_la
     (by decide) (by decide)
 
 
+/-! ## the statement semantics do not depend on the fuel -/
+
+namespace Spec.Stmt
+open StepModel.GenPy.Body StepModel.GenPy.Stmt
+
+/-- `run'` does at least what `run` does -/
+def Le (run run' : Env → Option (Env × Out)) : Prop := ∀ env r, run env = some r → run' env = some r
+
+theorem pass_le (wh un : Option Expr) (run run' : Env → Option (Env × Out)) (h : Le run run') : Le (pass wh un run) (pass wh un run') := by
+  intro env r hr
+  have hgo : ∀ r, afterBody un (run env) = some r → afterBody un (run' env) = some r := by
+    intro r hr
+    cases hq : run env with
+    | none => simp [hq, afterBody] at hr
+    | some q => rw [h env q hq]; rw [hq] at hr; exact hr
+  cases wh with
+  | none => simp only [pass] at hr ⊢; exact hgo r hr
+  | some w =>
+    simp only [pass] at hr ⊢
+    cases hb : evalBool env w with
+    | none => simp [hb] at hr
+    | some b => cases b <;> simp only [hb] at hr ⊢ <;> first | exact hr | exact hgo r hr
+
+theorem loop_le (run run' : Env → Option (Env × Out)) (h : Le run run') (i : String) (b s : Int) :
+    ∀ (n : Nat) (env : Env) (cur : Int) (r : Env × Out), loop run n env i cur b s = some r → loop run' (n + 1) env i cur b s = some r := by
+  intro n
+  induction n with
+  | zero => intro env cur r hr; simp [loop] at hr
+  | succ n ih =>
+    intro env cur r hr
+    rw [loop] at hr
+    rw [loop]
+    split at hr
+    · rename_i hc; rw [if_pos hc]; exact hr
+    · rename_i hc
+      rw [if_neg hc]
+      cases hq : run ((i, .int cur) :: env) with
+      | none => simp [hq] at hr
+      | some q =>
+        obtain ⟨e1, o1⟩ := q
+        rw [h _ _ hq]; simp only [hq] at hr
+        cases o1 with
+        | normal => exact ih e1 (cur + s) r hr
+        | skipped => exact ih e1 (cur + s) r hr
+        | escaped => exact hr
+        | returned v => exact hr
+
+theorem loopW_le (run run' : Env → Option (Env × Out)) (h : Le run run') :
+    ∀ (n : Nat) (env : Env) (r : Env × Out), loopW run n env = some r → loopW run' (n + 1) env = some r := by
+  intro n
+  induction n with
+  | zero => intro env r hr; simp [loopW] at hr
+  | succ n ih =>
+    intro env r hr
+    rw [loopW] at hr
+    rw [loopW]
+    cases hq : run env with
+    | none => simp [hq] at hr
+    | some q =>
+      obtain ⟨e1, o1⟩ := q
+      rw [h _ _ hq]; simp only [hq] at hr
+      cases o1 with
+      | normal => exact ih e1 r hr
+      | skipped => exact ih e1 r hr
+      | escaped => exact hr
+      | returned v => exact hr
+
+theorem exec_succ : ∀ (f : Nat) (env : Env) (s : Stmt) (r : Env × Out), exec f env s = some r → exec (f + 1) env s = some r := by
+  intro f
+  induction f with
+  | zero => intro env s r h; simp [exec] at h
+  | succ f ih =>
+    intro env s r h
+    cases s with
+    | nop => exact h
+    | seq a b =>
+      rw [exec] at h; rw [exec]
+      cases ha : exec f env a with
+      | none => simp [ha] at h
+      | some q =>
+        obtain ⟨e1, o1⟩ := q
+        rw [ih env a _ ha]; simp only [ha] at h
+        cases o1 with
+        | normal => exact ih e1 b r h
+        | skipped => exact h
+        | escaped => exact h
+        | returned v => exact h
+    | assign x e => exact h
+    | ite c t e =>
+      rw [exec] at h; rw [exec]
+      cases hv : Spec.Body.eval env c with
+      | none => simp [hv] at h
+      | some v =>
+        cases v with
+        | int n => simp [hv] at h
+        | bool bv => cases bv <;> simp only [hv] at h ⊢ <;> first | exact ih env t r h | exact ih env e r h
+    | repeatInc i a b st wh un body =>
+      rw [exec] at h; rw [exec]
+      cases hva : Spec.Body.eval env a with
+      | none => simp [hva] at h
+      | some va =>
+        cases hvb : Spec.Body.eval env b with
+        | none => cases va <;> simp [hva, hvb] at h
+        | some vb =>
+          cases va with
+          | bool _ => simp [hva, hvb] at h
+          | int ia =>
+            cases vb with
+            | bool _ => simp [hva, hvb] at h
+            | int ib =>
+              simp only [hva, hvb] at h ⊢
+              exact loop_le _ _ (pass_le wh un _ _ (fun env' r' hr' => ih env' body r' hr')) i ib st f env ia r h
+    | repeatWhile wh un body =>
+      rw [exec] at h; rw [exec]
+      exact loopW_le _ _ (pass_le wh un _ _ (fun env' r' hr' => ih env' body r' hr')) f env r h
+    | skip => exact h
+    | escape => exact h
+    | ret e => exact h
+
+theorem exec_le (env : Env) (s : Stmt) (r : Env × Out) : ∀ (f g : Nat), f ≤ g → exec f env s = some r → exec g env s = some r := by
+  intro f g hle h
+  induction hle with
+  | refl => exact h
+  | step _ ih => exact exec_succ _ env s r ih
+
+end Spec.Stmt
+
+/-- **The reference semantics of the statement fragment does not depend on the fuel**: more fuel never changes a result,
+so any two runs of a statement from an environment that both finish agree — the fuel only says how long one is willing
+to wait, it is not part of the meaning. -/
+theorem C18_statement_semantics_is_fuel_independent (env : Stmt.Env) (s : Stmt.Stmt) (f g : Nat) (r r' : Stmt.Env × Stmt.Out)
+    (h : Spec.Stmt.exec f env s = some r) (h' : Spec.Stmt.exec g env s = some r') : r = r' := by
+  have h1 := Spec.Stmt.exec_le env s r f (max f g) (Nat.le_max_left _ _) h
+  have h2 := Spec.Stmt.exec_le env s r' g (max f g) (Nat.le_max_right _ _) h'
+  rw [h1] at h2
+  exact Option.some.inj h2
+
+namespace Stmt
+open Body
+
+theorem pyPass_le (wh un : Option PyExpr) (run run' : Env → Option (Env × Out)) (h : Spec.Stmt.Le run run') :
+    Spec.Stmt.Le (pyPass wh un run) (pyPass wh un run') := by
+  intro env r hr
+  have hgo : ∀ r, pyAfterBody un (run env) = some r → pyAfterBody un (run' env) = some r := by
+    intro r hr
+    cases hq : run env with
+    | none => simp [hq, pyAfterBody] at hr
+    | some q => rw [h env q hq]; rw [hq] at hr; exact hr
+  cases wh with
+  | none => simp only [pyPass] at hr ⊢; exact hgo r hr
+  | some w =>
+    simp only [pyPass] at hr ⊢
+    cases hb : pyEval env w with
+    | none => simp [hb] at hr
+    | some b =>
+      simp only [hb] at hr ⊢
+      by_cases ht : b.truthy = true
+      · simp only [ht, if_true] at hr ⊢; exact hgo r hr
+      · have hf : b.truthy = false := by simpa using ht
+        simp only [hf, Bool.false_eq_true, if_false] at hr ⊢; exact hr
+
+theorem pyLoop_le (run run' : Env → Option (Env × Out)) (h : Spec.Stmt.Le run run') (i : String) (stop s : Int) :
+    ∀ (n : Nat) (env : Env) (cur : Int) (r : Env × Out), pyLoop run n env i cur stop s = some r → pyLoop run' (n + 1) env i cur stop s = some r := by
+  intro n
+  induction n with
+  | zero => intro env cur r hr; simp [pyLoop] at hr
+  | succ n ih =>
+    intro env cur r hr
+    rw [pyLoop] at hr
+    rw [pyLoop]
+    split at hr
+    · rename_i hc
+      rw [if_pos hc]
+      cases hq : run ((i, .int cur) :: env) with
+      | none => simp [hq] at hr
+      | some q =>
+        obtain ⟨e1, o1⟩ := q
+        rw [h _ _ hq]; simp only [hq] at hr
+        cases o1 with
+        | normal => exact ih e1 (cur + s) r hr
+        | skipped => exact ih e1 (cur + s) r hr
+        | escaped => exact hr
+        | returned v => exact hr
+    · rename_i hc; rw [if_neg hc]; exact hr
+
+theorem pyWhile_le (run run' : Env → Option (Env × Out)) (h : Spec.Stmt.Le run run') :
+    ∀ (n : Nat) (env : Env) (r : Env × Out), pyWhile run n env = some r → pyWhile run' (n + 1) env = some r := by
+  intro n
+  induction n with
+  | zero => intro env r hr; simp [pyWhile] at hr
+  | succ n ih =>
+    intro env r hr
+    rw [pyWhile] at hr
+    rw [pyWhile]
+    cases hq : run env with
+    | none => simp [hq] at hr
+    | some q =>
+      obtain ⟨e1, o1⟩ := q
+      rw [h _ _ hq]; simp only [hq] at hr
+      cases o1 with
+      | normal => exact ih e1 r hr
+      | skipped => exact ih e1 r hr
+      | escaped => exact hr
+      | returned v => exact hr
+
+theorem pyExec_succ : ∀ (f : Nat) (env : Env) (p : PyStmt) (r : Env × Out), pyExec f env p = some r → pyExec (f + 1) env p = some r := by
+  intro f
+  induction f with
+  | zero => intro env p r h; simp [pyExec] at h
+  | succ f ih =>
+    intro env p r h
+    cases p with
+    | pass => exact h
+    | seq a b =>
+      rw [pyExec] at h; rw [pyExec]
+      cases ha : pyExec f env a with
+      | none => simp [ha] at h
+      | some q =>
+        obtain ⟨e1, o1⟩ := q
+        rw [ih env a _ ha]; simp only [ha] at h
+        cases o1 with
+        | normal => exact ih e1 b r h
+        | skipped => exact h
+        | escaped => exact h
+        | returned v => exact h
+    | assign x e => exact h
+    | ite c t e =>
+      rw [pyExec] at h; rw [pyExec]
+      cases hv : pyEval env c with
+      | none => simp [hv] at h
+      | some v =>
+        simp only [hv] at h ⊢
+        by_cases ht : v.truthy = true
+        · simp only [ht, if_true] at h ⊢; exact ih env t r h
+        · have hf : v.truthy = false := by simpa using ht
+          simp only [hf, Bool.false_eq_true, if_false] at h ⊢; exact ih env e r h
+    | forRange i a b st wh un body =>
+      rw [pyExec] at h; rw [pyExec]
+      cases hva : pyEval env a with
+      | none => simp [hva] at h
+      | some va =>
+        cases hvb : pyEval env b with
+        | none => simp [hva, hvb] at h
+        | some vb =>
+          simp only [hva, hvb] at h ⊢
+          exact pyLoop_le _ _ (pyPass_le wh un _ _ (fun env' r' hr' => ih env' body r' hr')) i _ st f env va.toInt r h
+    | while_ c un body =>
+      rw [pyExec] at h; rw [pyExec]
+      exact pyWhile_le _ _ (pyPass_le c un _ _ (fun env' r' hr' => ih env' body r' hr')) f env r h
+    | break_ => exact h
+    | continue_ => exact h
+    | ret e => exact h
+
+theorem pyExec_le (env : Env) (p : PyStmt) (r : Env × Out) : ∀ (f g : Nat), f ≤ g → pyExec f env p = some r → pyExec g env p = some r := by
+  intro f g hle h
+  induction hle with
+  | refl => exact h
+  | step _ ih => exact pyExec_succ _ env p r ih
+
+end Stmt
+
+/-- … and so does Python's semantics of the written statements. -/
+theorem C18_python_statement_semantics_is_fuel_independent (env : Stmt.Env) (p : Stmt.PyStmt) (f g : Nat) (r r' : Stmt.Env × Stmt.Out)
+    (h : Stmt.pyExec f env p = some r) (h' : Stmt.pyExec g env p = some r') : r = r' := by
+  have h1 := Stmt.pyExec_le env p r f (max f g) (Nat.le_max_left _ _) h
+  have h2 := Stmt.pyExec_le env p r' g (max f g) (Nat.le_max_right _ _) h'
+  rw [h1] at h2
+  exact Option.some.inj h2
+
+/-- **Translation correctness without the fuel**: if EXPRESS runs a statement of the fragment from an environment to a
+result (with whatever fuel), then *every* finished run of the written Python from that environment, with whatever fuel, has
+exactly that result — and at least one such run exists. -/
+theorem C18_function_statements_translated_fuel_free (env : Stmt.Env) (s : Stmt.Stmt) (r : Stmt.Env × Stmt.Out) (f : Nat)
+    (hw : Stmt.wf s = true) (hs : Spec.Stmt.exec f env s = some r) :
+    ∃ p, Stmt.tr s = some p ∧ (∃ g, Stmt.pyExec g (Body.instanceOf env) p = some (Body.instanceOf r.1, r.2)) ∧
+      ∀ g q, Stmt.pyExec g (Body.instanceOf env) p = some q → q = (Body.instanceOf r.1, r.2) := by
+  obtain ⟨p, hp, hx⟩ := C18_function_statements_translated f env s r hw hs
+  exact ⟨p, hp, ⟨f, hx⟩, fun g q hq => C18_python_statement_semantics_is_fuel_independent _ p g f q _ hq hx⟩
+
+
 end StepModel.GenPy
